@@ -226,7 +226,7 @@ def run(ctx):
     res.floor("R18.4", "transitions into ParseState::Opt", len(opt_sets), 2)
     for i, s_ in opt_sets:
         gl = guard_strs(comp, i)
-        is_long = any(g.startswith("V1:to_long(") or g.startswith("V0:to_long(") for g in gl)
+        is_long = any(g.startswith("V1:to_long(") for g in gl)
         if is_long:
             # real parser: a long option awaits a value iff it takes values and no `=value` part was given (has_eq = long_value.is_some())
             ok_ = any(re.match(r"^T:takes_values\(", g) for g in gl) and \
